@@ -457,7 +457,7 @@ class IoContract(Generic[TermList_t]):
             raise ValueError
         return (
             self.inputvars == other.inputvars
-            and self.outputvars == self.outputvars
+            and self.outputvars == other.outputvars
             and self.a == other.a
             and self.g == other.g
         )
